@@ -24,6 +24,8 @@ func init() {
 			"the loader's fetch-kind dispatch covers every fetch implementation; every planner callback is registered with its walker. " +
 			"NOT decided (no honest structural proxy): data(gateway) == data(monolith), error equivalence, planning totality, field ownership of subgraph requests.",
 		Mutants: []Mutant{
+			{Name: "enclosing type of a field resolved in the operation document by the path builder", File: "v2/pkg/engine/plan/path_builder_visitor.go", Rule: "C01-R8", Key: "pathBuilderVisitor.EnterField/Node.NameString",
+				Old: "\ttypeName := c.walker.EnclosingTypeDefinition.NameString(c.definition)\n\n\tc.debugPrint(\"EnterField ref:\"", New: "\ttypeName := c.walker.EnclosingTypeDefinition.NameString(c.operation)\n\n\tc.debugPrint(\"EnterField ref:\""},
 			{Name: "upstream operation printed without self-validation", File: gqldsGo, Rule: "C01-R1", Key: "validated",
 				Old: "\tkit.validator.Validate(p.upstreamOperation, definition, kit.report)\n\tif kit.report.HasErrors() {\n\t\tp.stopWithError(errors.WithStack(fmt.Errorf(\"printOperation planner id: %d: validation failed: %w\", p.id, kit.report)))\n\t\treturn nil, nil\n\t}\n", New: ""},
 			{Name: "validation errors of the upstream operation only logged", File: gqldsGo, Rule: "C01-R1", Key: "validated",
@@ -433,6 +435,9 @@ func runC01(r *fw.Run) {
 		r.Expect("C01-R6", "Visitor state writes in LeaveField", n, 2)
 	}
 	c01BatchDedupIndex(r)
+
+	r.Rule("C01-R8", "in every planner visitor (packages plan and graphql_datasource) a node is looked up only in the document it came from: a definition node (Walker.EnclosingTypeDefinition, TypeDefinitions, a lookup in the definition) is never handed to a method of the operation document, nor the other way round")
+	documentProvenance(r, "C01-R8", []string{"plan", "gqlds"}, 28)
 }
 
 func hasField(t types.Type, name string) bool {
